@@ -47,7 +47,7 @@ def required_cells(tier):
             "class:E", "class:R", "resolved-set-compared", "table-compared", "header-dir-outside-root",
             "outside-header-read", "include-depth>=40", "include-depth>=70", "headers-differing-in-case",
             "guard-undefined-then-reincluded", "directory-named-like-header-on-search-path", "include-spelled-with-dotdot",
-            "dotdot-include-resolved-through-search-directory"]
+            "dotdot-include-resolved-through-search-directory", "environment:CPATH-names-header-directories"]
 
 
 def enum_cases():
@@ -151,14 +151,26 @@ def check_case(ctx, case, base, cls, extra_cells=()):
     cells.add("class:" + cls)
     conf = forest.cbi_configuration(case, base)
     problems = []
+    # the environment of the analysis is not part of any compile command: CPATH & co. naming a directory with same-named
+    # headers must not change what the command's own options select (set only around the analysis, not for the oracle)
+    env_dirs = os.pathsep.join(os.path.join(root_real, d_) for d_ in ("sys", "inc2", "inc"))
+    env_set = len(case["files"]) % 3 == 0
+    for var in ("CPATH", "C_INCLUDE_PATH", "CPLUS_INCLUDE_PATH"):
+        if env_set:
+            os.environ[var] = env_dirs
+    if env_set:
+        cells.add("environment:CPATH-names-header-directories")
     try:
         with hooks.monitor() as ev:
+            conf = forest.cbi_configuration(case, base)
             state, _ = cbi.run_find(root, conf)
     except Exception as e:
         tb = traceback.extract_tb(e.__traceback__)
         inner = [f"{os.path.basename(fr.filename)}:{fr.lineno}:{fr.name}" for fr in tb if "/codebasin/" in fr.filename][-1:]
         problems.append({"kind": "exception", "observed": f"{type(e).__name__}: {e}", "at": inner})
         ev = None
+    for var in ("CPATH", "C_INCLUDE_PATH", "CPLUS_INCLUDE_PATH"):
+        os.environ.pop(var, None)
     nontriv = None
     if ev is not None:
         for k, v in ev.counts.items():
